@@ -9,6 +9,23 @@ PY = '/venv/bin/python harness/vcheck.py'
 
 # property id -> (technique, level text, level note, design ref)
 CHECKS = {
+    'C16': ('Lean 4 theorems over the regenerated replacement chain + model/implementation correspondence',
+            'Kernel-checked theorems: for every pattern of documented CSVW date/time fields joined by documented separators '
+            '(any length) the replacement chain extracted from the source yields the field-by-field strptime format; ISO '
+            'collapse sound; type tables total. The chain and tables are regenerated from /repo on every run, the rest of '
+            'the function is tied by differential testing against the Lean model; reading instants back and the full '
+            'CSV+CSVW table round trip are decided by the oracle on the real pandas path.',
+            'Trusted: Lean kernel; translator (ast walk); pandas read_csv/to_datetime not modelled (oracle only).',
+            'DESIGN.md 4 C16'),
+    'C18': ('Lean 4 theorems over a model of the coverage functions + model/implementation correspondence',
+            'Kernel-checked theorems over a line-by-line model of rex_coverage / coverage_matrices / '
+            'matrices2incremental_coverage for every pattern list, example multiset and match relation: termination, '
+            'exact coverage, incremental counts sum to the examples explained (each credited once), non-increasing '
+            'order, exact n / n_uniq fields. The model is tied to the code by running both on generated inputs; the '
+            'property is also evaluated as an oracle on Extractor results.',
+            'Trusted: Lean kernel; re.match enters as a Boolean matrix computed by the real re; Extractor sampling is '
+            'outside the model (oracle only; two known findings).',
+            'DESIGN.md 4 C18'),
 }
 
 NOT_BUILT = 'check not built yet in this round (see DESIGN.md section 4 for the planned model and theorems)'
